@@ -17,6 +17,11 @@ pub fn instances(tier: &str) -> Vec<String> {
     for k in 0..=(if tier == "thorough" { 2 } else { 1 }) { v.push(format!("sys_any:n=2,iters={}", k)); v.push(format!("sysjac_any:n=2,iters={}", k)); }
     for n in 1..=2 { v.push(format!("sys_affine:n={},iters=2", n)); v.push(format!("sysjac_affine:n={},iters=2", n)); }
     v.push("csys_affine:n=1,iters=2".into());
+    // complex systems with an arbitrary map (fresh complex symbols per call), finite-difference and user-supplied Jacobian
+    for k in 0..=2 { v.push(format!("csys_any:n=1,iters={}", k)); v.push(format!("csysjac_any:n=1,iters={}", k)); }
+    v.push("csysjac_any:n=2,iters=1".into());
+    v.push("csys_any:n=2,iters=1".into());
+    if tier == "thorough" { v.push("csysjac_any:n=2,iters=2".into()); }
     // a user function that returns NaN at its j-th call (and arbitrary values otherwise): success must never carry NaN
     for k in 1..=2usize { for j in 0..3 * k { v.push(format!("scalar_nan:iters={},at={}", k, j)); } }
     for j in 0..3usize { v.push(format!("cscalar_nan:iters=1,at={}", j)); }
@@ -259,6 +264,57 @@ pub fn body(inst: &str) {
                 }
             }
             control("csys control", eq(tol, tol + Sym::lit(1.0)));
+        }
+        "csys_any" | "csysjac_any" => {
+            let with_jac = kind.starts_with("csysjac");
+            let x0: Vec<Cmplx> = (0..n).map(|i| Cmplx::new(Sym::var(&format!("x0r_{}", i)), Sym::var(&format!("x0i_{}", i)))).collect();
+            let fcalls: RefCell<Vec<(Vec<Cmplx>, Vec<Cmplx>)>> = RefCell::new(Vec::new());
+            let jcalls: RefCell<usize> = RefCell::new(0);
+            let f = |x: Vector<Cmplx>| -> Vector<Cmplx> {
+                let k = fcalls.borrow().len();
+                let xs: Vec<Cmplx> = (0..x.size()).map(|i| x[i]).collect();
+                let out: Vec<Cmplx> = (0..n).map(|i| Cmplx::new(Sym::var(&format!("Fr{}_{}", k, i)), Sym::var(&format!("Fi{}_{}", k, i)))).collect();
+                fcalls.borrow_mut().push((xs, out.clone()));
+                Vector::create(out)
+            };
+            let jac = |_x: Vector<Cmplx>| -> Matrix<Cmplx> {
+                let k = *jcalls.borrow();
+                *jcalls.borrow_mut() += 1;
+                let mut j = Matrix::<Cmplx>::new(n, n, Cmplx::new(z(), z()));
+                for a in 0..n { for b in 0..n { j[(a, b)] = Cmplx::new(Sym::var(&format!("Jr{}_{}_{}", k, a, b)), Sym::var(&format!("Ji{}_{}_{}", k, a, b))); } }
+                j
+            };
+            let mut nw = Newton::<Vector<Cmplx>>::new(Vector::create(x0.clone()));
+            nw.tolerance(tol); nw.delta(delta); nw.iterations(iters);
+            let r = catch(|| if with_jac { nw.solve_jacobian(&f, &jac) } else { nw.solve(&f) });
+            let fc = fcalls.borrow();
+            let per_iter = if with_jac { 1 } else { n + 2 };
+            let tag = if with_jac { "complex system, user Jacobian" } else { "complex system, finite differences" };
+            match r {
+                Ok(res) => {
+                    prove(&format!("{}: function evaluations bounded by max_iter (made {} with max_iter = {})", tag, fc.len(), iters), if fc.len() <= (2 * n + 4) * iters { B::True } else { B::False });
+                    if with_jac { prove(&format!("{}: Jacobian evaluations bounded by max_iter", tag), if *jcalls.borrow() <= 2 * iters { B::True } else { B::False }); }
+                    if fc.len() % per_iter != 0 { note("evaluation pattern differs from one residual (+ n+1 Jacobian) evaluation(s) per iteration: residual reconstruction skipped".into()); return; }
+                    let done = fc.len() / per_iter;
+                    let resid = |i: usize| -> Vec<Cmplx> { fc[per_iter * i].1.clone() };
+                    let m2 = |c: Cmplx| c.real * c.real + c.imag * c.imag;
+                    match res {
+                        Ok(_v) => {
+                            prove(&format!("{}: Ok needs at least one iteration", tag), if done >= 1 { B::True } else { B::False });
+                            if done >= 1 { for t in 0..n { prove(&format!("{}: Ok only when the residual criterion max|F_i| <= tol was met (|F_{}|^2 <= tol^2, both parts count)", tag, t), le(m2(resid(done - 1)[t]), tol * tol)); } }
+                        }
+                        Err(v) => {
+                            prove(&format!("{}: Err only after max_iter iterations", tag), if done == iters { B::True } else { B::False });
+                            if iters == 0 { for t in 0..n { prove_eq(&format!("{}: Err carries the guess when no iteration ran (re)", tag), v[t].real, x0[t].real); prove_eq(&format!("{}: Err carries the guess when no iteration ran (im)", tag), v[t].imag, x0[t].imag); } }
+                            if done >= 1 && done == iters { prove(&format!("{}: criterion was not met in the last iteration", tag), B::or((0..n).map(|t| lt(tol * tol, m2(resid(done - 1)[t]))).collect())); }
+                        }
+                    }
+                    if done >= 1 { for t in 0..n { prove_eq(&format!("{}: first residual is evaluated at the guess (re)", tag), fc[0].0[t].real, x0[t].real); prove_eq(&format!("{}: first residual is evaluated at the guess (im)", tag), fc[0].0[t].imag, x0[t].imag); } }
+                }
+                Err(Stop::DivZero { .. }) => { check_that(fc.len() <= (2 * n + 4) * iters, || "evaluation bound on a singular-Jacobian path".into()); note("singular Jacobian: IEEE inf/NaN continuation is not modelled (path ends)".into()); }
+                Err(st) => must_not_stop("Newton<Vector<Cmplx>>::solve", &st),
+            }
+            control("csys_any control", eq(tol, tol + Sym::lit(1.0)));
         }
         _ => panic!("unknown C17 instance"),
     }
